@@ -260,8 +260,17 @@ def r_tracing(text, log):
     for p, k in enumerate(sg):
         t = toks[k]
         if t.kind == "ident" and t.text in TRACE_MACROS and p + 2 < len(sg) and toks[sg[p + 1]].text == "!" and toks[sg[p + 2]].text == "(":
-            if p > 0 and toks[sg[p - 1]].text in ("::", "."):
+            start = t.s
+            pp = p
+            if p > 0 and toks[sg[p - 1]].text == ".":
                 continue
+            if p > 1 and toks[sg[p - 1]].text == "::":
+                # path-qualified logging macro: tracing::trace!(..), log::debug!(..)
+                if toks[sg[p - 2]].kind == "ident" and toks[sg[p - 2]].text in ("tracing", "log") and not (p > 2 and toks[sg[p - 3]].text == "::"):
+                    pp = p - 2
+                    start = toks[sg[pp]].s
+                else:
+                    continue
             c = match_close(toks, sg[p + 2])
             inner = toks[sg[p + 2] + 1:c]
             for a in inner:
@@ -269,18 +278,18 @@ def r_tracing(text, log):
                     raise WbxError(f"R1: tracing macro with effectful argument near `{text[t.s:t.s+60]}`")
             e = toks[c].e
             cp = sg.index(c)
-            prev = toks[sg[p - 1]].text if p > 0 else "{"
+            prev = toks[sg[pp - 1]].text if pp > 0 else "{"
             nxt = toks[sg[cp + 1]].text if cp + 1 < len(sg) else "}"
             if prev in ("{", "}", ";") :
                 if nxt == ";":
                     e = toks[sg[cp + 1]].e
-                    edits.append((t.s, e, ""))
+                    edits.append((start, e, ""))
                 elif nxt == "}":
-                    edits.append((t.s, e, ""))
+                    edits.append((start, e, ""))
                 else:
                     raise WbxError("R1: tracing macro in unexpected position")
             elif prev == "=>":
-                edits.append((t.s, e, "()"))
+                edits.append((start, e, "()"))
             else:
                 raise WbxError(f"R1: tracing macro in expression position after `{prev}`")
     bump(log, "R1 tracing statements dropped", len(edits))
